@@ -4,7 +4,7 @@ proves the hand-written model (Model/Passes.v size, seq_width, short_width, seq_
 import ast
 import os
 
-from py2coq import TranslationError, HEADER
+from py2coq import TranslationError, HEADER, Translator
 
 UNIT_NAMES = ['Sizes']
 
@@ -105,13 +105,40 @@ def emit_sizes(repo):
         txt = ast.unparse(fns[fname])
         if "endianness = '<'" not in txt or 'fmt.lower()' not in txt:
             fail(fns[fname], 'little-endian format with lower-case (signed) variant for negative values expected')
-    out = [HEADER.format(src='asm.py (size() methods, data format tables)')]
+    # Align.resolution_size(self, position): the padding an align really takes at a position -- translated as an arithmetic
+    # function of (alignment, position) by the encoder translator (self.alignment -> parameter `alignment`)
+    meth = [m for m in classes['Align'].body if isinstance(m, ast.FunctionDef) and m.name == 'resolution_size']
+    if len(meth) != 1:
+        fail(classes['Align'], 'Align.resolution_size not found')
+    m = meth[0]
+    if [a.arg for a in m.args.args] != ['self', 'position'] or m.args.kwonlyargs or m.args.vararg or m.args.kwarg or m.args.defaults:
+        fail(m, 'resolution_size(self, position) expected')
+
+    class Self2Param(ast.NodeTransformer):
+        def visit_Attribute(self, node):
+            if isinstance(node.value, ast.Name) and node.value.id == 'self':
+                if node.attr != 'alignment':
+                    fail(node, 'resolution_size reads self.' + node.attr)
+                return ast.copy_location(ast.Name(id='alignment', ctx=ast.Load()), node)
+            return self.generic_visit(node)
+    import copy as _copy
+    fn = Self2Param().visit(_copy.deepcopy(m))
+    for n in ast.walk(fn):
+        if isinstance(n, ast.Name) and n.id == 'self':
+            fail(n, 'resolution_size uses self other than self.alignment')
+    fn.name = 'align_resolution_size'
+    fn.args.args = [ast.arg(arg='alignment'), ast.arg(arg='position')]
+    ast.fix_missing_locations(fn)
+    tr = Translator(path, 'Sizes')
+    res_def = tr.function(fn)
+    out = [HEADER.format(src='asm.py (size() methods, data format tables, Align.resolution_size)')]
     out.append('Inductive size_kind := SzConst (z : Z) | SzFsize | SzUtf8Len | SzTablePerValue | SzCalcsize | SzTable | SzAlignment | SzLenData | SzPseudo.\n')
     out.append('Definition size_kinds : list (string * size_kind) :=\n  [{}].\n'.format(';\n   '.join(kinds)))
     for nm, tab in (('seq_sizes', seq_sizes), ('short_sizes', short_sizes)):
         out.append('Definition {} : list (string * Z) := [{}].\n'.format(nm, '; '.join('({}, {})'.format(slit(k), v) for k, v in tab)))
     for nm, tab in (('seq_formats', seq_fmts), ('short_formats', short_fmts)):
         out.append('Definition {} : list (string * string) := [{}].\n'.format(nm, '; '.join('({}, {})'.format(slit(k), slit(v)) for k, v in tab)))
+    out.append(res_def)
     return '\n'.join(out)
 
 
